@@ -55,6 +55,9 @@ class Exec:
 
     def __init__(self, exe, timeout=None):
         self.timeout = timeout or float(os.environ.get('VERIF_SCRIPT_TIMEOUT', '60'))
+        self.audit = bool(os.environ.get('VERIF_AUDIT'))
+        self.base = None
+        self.last_script = None
         self.exe = exe
         self.p = None
         self.errf = None
@@ -110,6 +113,10 @@ class Exec:
         (kind 'timeout') is raised."""
         if not self.p:
             self.start()
+            self.base = None
+        if self.audit and lines and lines[0] == 'reset':
+            self._audit(lines)
+        self.last_script = lines
         data = ('\n'.join(lines) + '\n.\n').encode()
         _arm(timeout or self.timeout)
         try:
@@ -150,6 +157,32 @@ class Exec:
                     res.append('ERR badjson ' + l.decode('latin-1')[:200])
         return res
 
+    def _audit(self, upcoming):
+        """C16: between two scripts everything is released (reset) and the ledger and the process-wide state are compared
+        with their values at executor start: a difference is attributed to the script that ran before."""
+        prev = self.last_script
+        self.last_script = None
+        saved, self.audit = self.audit, False
+        try:
+            a = self.run(['reset', 'env'] if self.base is not None else ['setlocale C.utf8', 'reset', 'env'])
+        finally:
+            self.audit = saved
+        env = a[-1]
+        state = (env.get('live'), env.get('locale'), env.get('round'))
+        if self.base is None:
+            self.base = state
+            return
+        if state != self.base and prev is not None:
+            what = []
+            if state[0] != self.base[0]:
+                what.append('%d allocation(s) of the library were not released after everything was freed and destroyed' % (state[0] - self.base[0]))
+            if state[1] != self.base[1]:
+                what.append('the numeric locale was left at %r (it was %r)' % (state[1], self.base[1]))
+            if state[2] != self.base[2]:
+                what.append('the floating-point rounding mode was left at %r (it was %r)' % (state[2], self.base[2]))
+            self.base = state
+            raise Crash('audit: ' + '; '.join(what), 'script that ran before the audit:\n' + '\n'.join(prev[-60:]), list(prev))
+
     def _crashed(self, lines):
         try:
             rc = self.p.wait(timeout=30)
@@ -165,6 +198,7 @@ _EXE = {}
 
 
 def exe(cfg, prog='cifx'):
+    cfg = os.environ.get('VERIF_EXEC_CFG', cfg)      # C16 re-runs the other explorations in the sanitizer build
     k = (cfg, prog)
     if k not in _EXE:
         _EXE[k] = _build.build(cfg, prog)
@@ -217,6 +251,7 @@ _worker_exec = {}
 
 def worker_exec(cfg, prog='cifx'):
     """per-process cached executor"""
+    cfg = os.environ.get('VERIF_EXEC_CFG', cfg)
     k = (cfg, prog)
     e = _worker_exec.get(k)
     if e is None or e.owner != os.getpid():
@@ -228,6 +263,7 @@ def worker_exec(cfg, prog='cifx'):
 
 
 def drop_worker_exec(cfg, prog='cifx'):
+    cfg = os.environ.get('VERIF_EXEC_CFG', cfg)
     e = _worker_exec.pop((cfg, prog), None)
     if e:
         return e.stop()
